@@ -17,6 +17,8 @@ import PycsepVerif.Drive.C03
 import PycsepVerif.Drive.C02
 import PycsepVerif.Drive.C10
 import PycsepVerif.Drive.C20
+import PycsepVerif.Drive.C17
+import PycsepVerif.Drive.C18
 -- REGISTER-IMPORT (one `import PycsepVerif.Drive.Cxx` line per property, above this line)
 
 /-- the per-property handlers, tried in order; each returns `none` for ops it does not know -/
@@ -40,6 +42,8 @@ def handlers : List (List String → Option String) := [
   , Drive.C02.handle
   , Drive.C10.handle
   , Drive.C20.handle
+  , Drive.C17.handle
+  , Drive.C18.handle
   -- REGISTER-HANDLER (`, Drive.Cxx.handle` lines above this line)
 ]
 
